@@ -29,9 +29,15 @@ CHECKS = {
     "C16": seq("Exploration: == evaluated in both directions beside a comparison of the two reference models, on pools of worlds related by clones, round trips and single mutations; soundness only (completeness is not stated by the property).", "DESIGN.md §6 C16"),
 }
 
+CHECKS["C18"] = dict(engine="bvh-ctor", design_ref="DESIGN.md §6 C18", technique="exhaustive run-time enumeration of constructors under catch_unwind",
+    level_text="Exhaustive enumeration at run time of the configuration space the property quantifies over: 120 duplicate registries x 6 constructors must panic (or fail), 10 duplicate-free twins x 6 must return, "
+               "340 batch length vectors: Batch::new panics iff ragged. exhaustive=true in the evidence; this is the right level because the space is finite and small.",
+    level_note="Trusted: catch_unwind observes the panic; the generator enumerates the stated space; deserialization inputs are the twin's own empty-world serialization in three carriers.")
+
 NOT_APPLICABLE = {}
 
 ENGINES = [
+    dict(name="bvh-ctor", path="/verif/ctor/src/main.rs", serves_properties=["C18"], kind_free_text="exhaustive constructor / batch precondition enumeration under catch_unwind"),
     dict(name="bvh-seq", path="/verif/bvh/src/seq.rs", serves_properties=["C01", "C02", "C03", "C04", "C05", "C06", "C10", "C13", "C15", "C16"],
          kind_free_text="sequential-history runtime monitor: generated op histories on real World vs reference model, drop ledger, allocator audit, structural audit; same binaries under Miri and ASan"),
 ]
